@@ -169,9 +169,12 @@ func buildBatchWorld(root string, days int) *batchWorld {
 		p.YearlyCols = minimalDailyWith("OUTSUM", "PerY", "SWCY1", "SWCY2", "AUFNASUM")
 		p.Fert = []proj.Fert{{Date: isoAdd(start, 1), Amount: 40, Kind: "KAS"}}
 		p.DailyCols = minimalDailyWith("OBMAS", "PESUM", "C1:0", "WG:1:0", "OUTSUM", "WURZ")
-		word := make([]string, days)
+		word := make([]string, days+110) // (the series is longer than the period: one line runs 100 days longer than the others)
 		for i := range word {
 			word[i] = []string{"grow", "rain", "dry-warm"}[i%3]
+			if i > days && i%9 > 1 {
+				word[i] = "dry-hot-windy"
+			}
 		}
 		p.Weather = e1Weather(0, word, false)
 		return p
@@ -243,6 +246,8 @@ func buildBatchWorld(root string, days int) *batchWorld {
 		"As": "project=p1 plotNr=1 fcode=W parameter=par poligonID=S GroundWaterFrom=2",
 		// project p2 (scheduled irrigation, some events behind the end date) with automatic irrigation instead
 		"Ca": "project=p2 plotNr=1 fcode=W parameter=par poligonID=U AutoIrrigation=1",
+		// ... and with an end date 100 days later, behind the other lines' latest irrigation dates
+		"Cal": "project=p2 plotNr=1 fcode=W parameter=par poligonID=Z AutoIrrigation=1 EndDate=" + proj.DateStr("DateDElong", proj.D(isoAdd(start, days+99))),
 		// plot 1 with the monthly precipitation correction / another missing-value code
 		"Ap": "project=p1 plotNr=1 fcode=W parameter=par poligonID=V CorrectionPrecipitation=1",
 		"An": "project=p1 plotNr=1 fcode=W parameter=par poligonID=Y WeatherNoneValue=-7",
